@@ -38,13 +38,13 @@ def include_dirs():
     gen = os.path.join(workdir(), 'gen')
     if not os.path.isdir(gen):
         os.makedirs(gen)
-        t = REPO + '/_build/tools/include/votca/tools/votca_tools_config.h'
+        t = build_dir() + '/tools/include/votca/tools/votca_tools_config.h'
         d = gen + '/votca/tools/votca_tools_config.h'
         os.makedirs(os.path.dirname(d), exist_ok=True)
         if os.path.exists(t): shutil.copy(t, d)
         else: _gen_config(d, REPO + '/tools/include/votca/tools/votca_tools_config.h.in', ('FFTW3_FOUND',))
         shutil.copy(d, gen + '/votca_tools_config.h')
-        c = REPO + '/_build/csg/src/libcsg/votca_csg_config.h'
+        c = build_dir() + '/csg/src/libcsg/votca_csg_config.h'
         d = gen + '/votca_csg_config.h'
         if os.path.exists(c): shutil.copy(c, d)
         else: _gen_config(d, REPO + '/csg/src/libcsg/votca_csg_config.h.in', ())
@@ -62,10 +62,15 @@ def _run(cmd, timeout=None, **kw):
 class Inconclusive(Exception): pass
 class EncoderError(Exception): pass
 
+def build_dir():
+    for d in ('_build', '_b'):
+        if os.path.isdir(os.path.join(REPO, d)): return os.path.join(REPO, d)
+    return os.path.join(REPO, '_build')
+
 def votca_libs(csg=True):
-    l = []
-    if csg: l += ['-L%s/_build/csg/src/libcsg' % REPO, '-lvotca_csg', '-Wl,-rpath,%s/_build/csg/src/libcsg' % REPO]
-    l += ['-L%s/_build/tools/src/libtools' % REPO, '-lvotca_tools', '-Wl,-rpath,%s/_build/tools/src/libtools' % REPO]
+    b = build_dir(); l = []
+    if csg: l += ['-L%s/csg/src/libcsg' % b, '-lvotca_csg', '-Wl,-rpath,%s/csg/src/libcsg' % b]
+    l += ['-L%s/tools/src/libtools' % b, '-lvotca_tools', '-Wl,-rpath,%s/tools/src/libtools' % b]
     return l
 
 def harness_path(name): return os.path.join(VERIF, 'harness', name)
@@ -174,8 +179,9 @@ class Check:
         cov.update(s.extra)
         ev = {'property_id': s.pid, 'tier': s.tier, 'seed': SEED, 'level': s.level, 'coverage': cov,
               'assumptions': s.assumptions, 'wall_s': round(wall, 2), 'violations': len(s.viol)}
-        os.makedirs(os.path.join(VERIF, 'evidence'), exist_ok=True)
-        json.dump(ev, open(os.path.join(VERIF, 'evidence', s.pid + '.json'), 'w'), indent=1, default=str)
+        evd = os.environ.get('VERIF_EVIDENCE_DIR') or os.path.join(VERIF, 'evidence')
+        os.makedirs(evd, exist_ok=True)
+        json.dump(ev, open(os.path.join(evd, s.pid + '.json'), 'w'), indent=1, default=str)
         for k, w in s.known_hit: print('KNOWN-FINDING: property=%s %s' % (s.pid, w))
         for u in s.ubclass: print('UB-CLASS: property=%s %s' % (s.pid, u))
         real = [v for v in s.viol if v['reproduced']]
@@ -197,7 +203,7 @@ class Check:
 def write_replay(pid, key, files, meta):
     """Persist a replay directory under /verif/replays/<pid>-<hash>/ ."""
     h = hashlib.sha1((pid + key + json.dumps(meta, sort_keys=True, default=str)).encode()).hexdigest()[:10]
-    d = os.path.join(VERIF, 'replays', '%s-%s' % (pid, h))
+    d = os.path.join(os.environ.get('VERIF_REPLAY_DIR') or os.path.join(VERIF, 'replays'), '%s-%s' % (pid, h))
     os.makedirs(d, exist_ok=True)
     for n, txt in files.items(): open(os.path.join(d, n), 'w').write(txt)
     json.dump(meta, open(os.path.join(d, 'input.json'), 'w'), indent=1, default=str)
